@@ -23,6 +23,12 @@ var hashKeys = []string{"t:h0"}
 var setKeys = []string{"t:e0"}
 var zsetKeys = []string{"t:z0"}
 
+// HyperLogLog keys: every PFADD adds one never-seen element, so PFCOUNT at the
+// end lies between the acknowledged and the attempted adds (the sketch is
+// exact at these sizes; a tolerance of 10% is allowed all the same). Not part
+// of the linearizability history.
+var hllKeys = []string{"t:p0"}
+
 type gen struct {
 	t    *core.Tape
 	nval int
@@ -38,7 +44,7 @@ func pickS(t *core.Tape, s []string) string { return s[t.Choose(len(s))] }
 // write generates one value-revealing write command (model args: name, key, ...).
 func (g *gen) write() []string {
 	t := g.t
-	switch t.Weighted([]int{30, 8, 8, 6, 6, 4, 10, 6, 6, 6, 6, 5, 5, 5, 5, 5, 5, 4}) {
+	switch t.Weighted([]int{30, 8, 8, 6, 6, 4, 10, 6, 6, 6, 6, 5, 5, 5, 5, 5, 5, 4, 8}) {
 	case 0:
 		return []string{"incr", pickS(t, kvCounter)}
 	case 1:
@@ -73,8 +79,10 @@ func (g *gen) write() []string {
 		return []string{"zadd", pickS(t, zsetKeys), fmt.Sprint(1 + t.Choose(3)), "m" + fmt.Sprint(t.Choose(3))}
 	case 16:
 		return []string{"zrem", pickS(t, zsetKeys), "m" + fmt.Sprint(t.Choose(3))}
-	default:
+	case 17:
 		return []string{"zincrby", pickS(t, zsetKeys), "1", "m" + fmt.Sprint(t.Choose(3))}
+	default:
+		return []string{"pfadd", pickS(t, hllKeys), g.val()}
 	}
 }
 
